@@ -125,7 +125,7 @@ func negS(s []byte) []byte {
 //
 //	1 high-S   2 padded R (extra 00)  3 long-form length  4 bad sequence length  5 trailing garbage
 //	6 negative R encoding (no 00 pad although top bit set; only when applicable)  7 flipped bit  8 empty
-//	9 hashtype byte only  10 truncated
+//	9 hashtype byte only  10 truncated  11 r = 0  12 s = 0  13 s = group order
 func ecdsaVariant(kind int, r, s []byte, ht byte) []byte {
 	switch kind {
 	case 1:
@@ -165,6 +165,12 @@ func ecdsaVariant(kind int, r, s []byte, ht byte) []byte {
 	case 10:
 		d := derSig(r, s)
 		return append(d[:len(d)-2], ht)
+	case 11:
+		return append(derSig([]byte{0}, s), ht) // r = 0
+	case 12:
+		return append(derSig(r, []byte{0}), ht) // s = 0
+	case 13:
+		return append(derSig(r, btcec.S256().N.Bytes()), ht) // s = group order
 	}
 	return append(derSig(r, s), ht)
 }
